@@ -612,7 +612,8 @@ def wtml_fields(path):
     el = etree.parse(path).getroot().find(".//ImageSet")
     names = {"center_x": "CenterX", "center_y": "CenterY", "base_degrees_per_tile": "BaseDegreesPerTile", "rotation_deg": "Rotation",
              "offset_x": "OffsetX", "offset_y": "OffsetY", "tile_levels": "TileLevels"}
-    return {f: float(el.get(a)) for f, a in names.items()}
+    # wwt_data_formats leaves out attributes that have their default value (e.g. OffsetX="0"): absent means 0
+    return {f: float(el.get(a, "0")) for f, a in names.items()}
 
 
 def replay_group(args):
@@ -959,7 +960,7 @@ def run(ctx):
         except Exception as e:  # noqa
             pool.shutdown(cancel_futures=True)
             bg.join()
-            ctx.machinery("replay worker failed on group %d: %r" % (i, e))
+            ctx.machinery("replay worker failed on group %d: %r %s" % (i, e, str(getattr(e, "__cause__", "") or "")[-1500:]))
     pool.shutdown()
     bg.join()
     if not real_only and bg.results["par-nolock"].violated != "NoContributionLost":
